@@ -1453,7 +1453,7 @@ pub fn run(report: &mut Report, replay: Option<&str>) {
         }
     }
     // random longer texts over the alphabet and over a wider one, on generated sources
-    let n_random = if thorough { 6000 } else { 600 };
+    let n_random = if thorough { 60000 } else { 600 };
     for _ in 0..n_random {
         let len = 5 + rng.below(12);
         let wide = rng.chance(1, 3);
@@ -1482,7 +1482,7 @@ pub fn run(report: &mut Report, replay: Option<&str>) {
             cases.push(Case::Remove { src, rule: Rule::Comments { lits: vec![], regexes: vec!["^--[^\\[]".into()] } });
         }
     }
-    let n_sources = if thorough { 9000 } else { 900 };
+    let n_sources = if thorough { 60000 } else { 900 };
     for k in 0..n_sources {
         let crlf = k % 5 == 4;
         let nl = if crlf { "\r\n" } else { "\n" };
